@@ -58,6 +58,8 @@ type Runner struct {
 	ReadClosed    func()       // VerifyAll closed its read transaction
 	Outcome       []string     // observable outcomes of operations (twin comparison)
 	VerAtBegin    uint32       // content version counter when the running transaction began
+	OnQuiescent   func(when string) // called at quiescent points (after transactions, after reopen)
+	txOOMSeen     bool
 	OnTxEnd       func()       // called right after a write transaction ended (before post checks)
 	BeforeEnd     func()       // called right before Commit/Rollback/Close is invoked
 }
@@ -305,6 +307,7 @@ func (r *Runner) apply(op Op) bool {
 		if err != nil {
 			r.errOK(err, "Alloc")
 			r.txOOM = true
+			r.txOOMSeen = true
 			r.out("%s(%d): error", op.K, n)
 			return true
 		}
@@ -708,6 +711,9 @@ func (r *Runner) afterTx() {
 	if !r.NoPostCheck {
 		r.VerifyAll("after transaction")
 	}
+	if r.OnQuiescent != nil && !r.E.Failed() {
+		r.OnQuiescent("after transaction")
+	}
 }
 
 // VerifyAll compares the file content with the model through a read transaction.
@@ -775,6 +781,9 @@ func (r *Runner) Reopen() {
 	r.VerifyAll("after reopen")
 	r.CheckPartition()
 	r.CheckLocksIdle("after reopen")
+	if r.OnQuiescent != nil && !e.Failed() {
+		r.OnQuiescent("after reopen")
+	}
 }
 
 // Close closes the file.
@@ -825,6 +834,7 @@ type Gen struct {
 	txLen  int
 	NoReopen bool
 	lowSpace bool
+	NoOverflow bool
 }
 
 func NewGen(r *Runner, rng *simsched.Rand, mix string) *Gen {
@@ -858,7 +868,7 @@ func (g *Gen) Next() Op {
 		g.inTxOps = 0
 		g.txLen = 1 + rng.Intn(2*g.M.OpsPerTx)
 		a := 0
-		if r.Cfg.MaxSize > 0 && rng.Intn(10) == 0 {
+		if r.Cfg.MaxSize > 0 && rng.Intn(10) == 0 && !g.NoOverflow {
 			a = 1
 		}
 		return Op{K: "begin", A: a}
